@@ -20,6 +20,7 @@ pub fn run(prop: &str, tier: &str, seed: u64) -> i32 {
     // leaked on purpose: helper threads with a timeout need a 'static reference
     let run: &'static Run = Box::leak(Box::new(Run::new(prop, tier, seed)));
     *crate::util::PROCESS_INFO.lock().unwrap() = (prop.to_string(), tier.to_string());
+    crate::report::nd_start(prop);
     match prop {
         "C01" => c01(run),
         "C02" | "C03" | "C15" => c02_c03_c15(run, prop),
@@ -58,6 +59,8 @@ pub fn base_plan(quick: bool) -> SweepPlan {
         heavy: None,
         rights: true,
         see_family: None,
+        corner: vec![],
+        skip_reach: false,
     }
 }
 
@@ -336,17 +339,25 @@ fn c11(run: &Run) -> i32 {
         ("pawns", "4k3/4p3/8/8/8/8/4P3/4K3 w - - 0 1"),
         ("mate-on-100", "7k/5K2/6Q1/8/8/8/8/8 w - - 98 80"),
         ("stalemate-on-100", "7k/8/5K2/6Q1/8/8/8/8 w - - 98 80"),
+        // a rook's pawn double-steps while an enemy pawn stands on the opposite edge file one rank off (no capture possible)
+        ("edge-a4", "4k3/8/8/8/8/7p/P7/4K3 w - - 0 1"),
+        ("edge-h4", "4k3/8/8/p7/8/8/7P/4K3 w - - 0 1"),
+        ("edge-a5", "4k3/p7/8/8/7P/8/8/4K3 b - - 0 1"),
+        ("edge-h5", "4k3/7p/P7/8/8/8/8/4K3 b - - 0 1"),
     ];
+    // all four rooks at home with all rights: positions that differ only in which rights were lost must not count as repeated
+    let rights_seed = ("all-rights", "r3k2r/8/8/8/8/8/8/R3K2R w KQkq - 0 1");
     let mut seeds: Vec<(String, Pos, usize)> = vec![];
     for (name, fen) in base {
         let p0 = Pos::from_fen(fen).unwrap();
-        let clocks: &[u32] = if name.contains("100") { &[98] } else { &[0, 3, 97, 98, 99, 100] };
+        let clocks: &[u32] = if name.contains("100") { &[98] } else if name.starts_with("edge") { &[0, 97] } else { &[0, 3, 97, 98, 99, 100] };
         for hm in clocks {
             let mut p = p0.clone();
             p.halfmove = *hm;
             seeds.push((format!("{name}@{hm}"), p, if *hm == 0 || name.contains("100") { l } else { l - 1 }));
         }
     }
+    seeds.push((rights_seed.0.to_string(), Pos::from_fen(rights_seed.1).unwrap(), if run.quick() { 4 } else { 5 }));
     let om = OpMon { rules: false, key: false, accum: false, draws: true, nulls: false };
     let total = std::sync::Mutex::new(crate::monitors::Counts::new());
     let (n, e) = ops::run_ops(&ctx, om, &seeds, &total);
@@ -518,7 +529,36 @@ fn c10(run: &Run) -> i32 {
     plan.reach_depth_big = if run.quick() { 1 } else { 2 };
     plan.mat1 = if run.quick() { vec![] } else { vec![vec![(Color::B, Kind::Q)], vec![(Color::W, Kind::P)]] };
     plan.promo = false;
-    let (s, _t) = sweep::run_plan(&ctx, &plan);
+    let (mut s, _t) = sweep::run_plan(&ctx, &plan);
+    // the broad position families with at most one deviation per stream: what they look for is a position
+    // shape (no quiet moves, pinned promoting pawns, en passant under pins), not a table content
+    let mut mon1 = Mon::default();
+    mon1.c10 = 2;
+    let ctx1 = make_ctx(run, mon1, &keymap);
+    let mut plan1 = base_plan(run.quick());
+    plan1.skip_reach = true;
+    plan1.rights = false;
+    plan1.mat1 = vec![];
+    plan1.promo = true;
+    plan1.ep_extra = if run.quick() { vec![None] } else { vec![None, Some((Color::B, Kind::B)), Some((Color::B, Kind::R))] };
+    let (w, b) = (Color::W, Color::B);
+    let a1h8 = |men: Vec<families::Man>| (0u8, 63u8, men);
+    plan1.corner = vec![a1h8(vec![(w, Kind::Q), (b, Kind::R), (b, Kind::P)]), a1h8(vec![(w, Kind::R), (b, Kind::Q), (b, Kind::N)])];
+    if !run.quick() {
+        for own in [Kind::Q, Kind::R, Kind::B, Kind::N, Kind::P] {
+            for (x, y) in [(Kind::Q, Kind::P), (Kind::R, Kind::B), (Kind::R, Kind::P), (Kind::B, Kind::N), (Kind::N, Kind::P), (Kind::Q, Kind::R)] {
+                let item = a1h8(vec![(w, own), (b, x), (b, y)]);
+                if !plan1.corner.contains(&item) {
+                    plan1.corner.push(item);
+                }
+            }
+        }
+        // the enemy king next to the corner takes the flight squares
+        plan1.corner.push((0, 18, vec![(w, Kind::Q), (b, Kind::R), (b, Kind::P)]));
+        plan1.corner.push((0, 18, vec![(w, Kind::N), (b, Kind::B), (b, Kind::P)]));
+    }
+    let (s1, _) = sweep::run_plan(&ctx1, &plan1);
+    s += s1;
     let streams = run.counter("picker_streams");
     for f in ["picker_positions_with_previous_move", "picker_positions_with_captures_and_quiets", "picker_hash_move_first"] {
         run.require(f, 50);
